@@ -175,7 +175,7 @@ func init() {
 		BudgetQuick: 150 * time.Second,
 		BudgetThor:  25 * time.Minute,
 		Kind:        "schedules",
-		Rule: "rule set of 4 rules (strict saliences; one tie with names out of salience order) x every name list of length 0..4 without repetition over {r0,r1,r2,r3,unknown} (206 lists incl. all permutations) x all 11 selected variants x policy x (N,M) with N+M in {len-1,len,len+1} x failing subset of size <=1; plus every list of length 2..4 over {r0,r1,r2,unknown} that repeats a name; plus call histories: the same selected call on one engine and builder before and after an in-place incremental update (salience change, body replacement, a formerly unknown name added); " +
+		Rule: "rule set of 4 rules (strict saliences; one tie with names out of salience order) x every name list of length 0..4 without repetition over {r0,r1,r2,r3,unknown} (206 lists incl. all permutations) x all 11 selected variants x policy x (N,M) with N+M in {len-1,len,len+1} x failing subset of size <=1; plus every list of length 2..4 over {r0,r1,r2,unknown} that repeats a name; plus call histories: the same selected call on one engine and builder before and after an in-place incremental update (salience change, body replacement, a formerly unknown name added), and two different selected calls in a row on one engine (every variant with a failing rule under both policies, then every variant with another name list); " +
 			"sequential variants: one deterministic execution each; concurrent/mix/inverse/N-M variants: every schedule with <=1 (thorough 2) preemptions; oracle = staged reference plan on exactly the named existing rules (sorted / as-given order, unknown skipped, fail-without-running cases, no unselected rule ever runs)",
 		Assume: []string{"injected observer functions terminate", "for name lists that repeat a name only 'no unselected rule runs / every named existing rule runs / nothing selectable fails' is judged (the statement does not say how often a repeated name runs)"},
 		Run: func(c *hx.Ctx) {
@@ -204,8 +204,18 @@ func init() {
 					hx.Explore("C12", selHistScenario(hc), hx.ExploreCfg{Bound: 0, DefaultOnly: true}, c.Res)
 				}
 			}
+			for i, pc := range selPairConfigs() {
+				if c.Mine(i) {
+					hx.Explore("C12", selPairScenario(pc), hx.ExploreCfg{Bound: 0, DefaultOnly: true}, c.Res)
+				}
+			}
 		},
 		Rebuild: func(v *hx.Violation) *hx.Scenario {
+			if v.Scenario == "c12pair" {
+				var pc selPairCfg
+				json.Unmarshal(v.Cfg, &pc)
+				return selPairScenario(pc)
+			}
 			if v.Scenario == "c12hist" {
 				var hc selHistCfg
 				json.Unmarshal(v.Cfg, &hc)
@@ -319,6 +329,101 @@ func selHistConfigs() []selHistCfg {
 				}
 				for _, b := range bs {
 					out = append(out, selHistCfg{Model: m.name, B: b, Names: names, Upd: u})
+				}
+			}
+		}
+	}
+	return out
+}
+
+// ---- two different selected calls in a row on one engine + builder ----
+// (what a call selected, and whether it failed, must not leak into the next call)
+
+type selPairCfg struct {
+	M1     string   `json:"m1"`
+	B1     bool     `json:"b1"`
+	Names1 []string `json:"names1"`
+	M2     string   `json:"m2"`
+	Names2 []string `json:"names2"`
+}
+
+func selPairRules() []gx.RuleSpec {
+	return []gx.RuleSpec{{Name: "r0", ID: 1, Salience: 9}, {Name: "r1", ID: 2, Salience: 7, Fail: true}, {Name: "r2", ID: 3, Salience: 5}, {Name: "r3", ID: 4, Salience: 3}}
+}
+
+func selPairScenario(cfg selPairCfg) *hx.Scenario {
+	template := gx.MustCompile(gx.RulesText(selPairRules()))
+	var refs []ref.RuleRef
+	for _, r := range selPairRules() {
+		refs = append(refs, ref.RuleRef{ID: r.ID, Name: r.Name, Sal: r.Salience, Fail: r.Fail})
+	}
+	nm := func(names []string) (int, int) {
+		if len(names) < 2 {
+			return 1, 1
+		}
+		return 1, len(names) - 1
+	}
+	n1, k1 := nm(cfg.Names1)
+	n2, k2 := nm(cfg.Names2)
+	plans1, _ := ref.Plans(cfg.M1, refs, ref.Params{B: cfg.B1, N: n1, M: k1, Names: cfg.Names1})
+	plans2, _ := ref.Plans(cfg.M2, refs, ref.Params{B: true, N: n2, M: k2, Names: cfg.Names2})
+	m1, m2 := gx.ModelByName(cfg.M1), gx.ModelByName(cfg.M2)
+	return &hx.Scenario{
+		Name: "c12pair",
+		Cfg:  cfg,
+		New:  func() interface{} { return &selHistState{log1: &gx.Log{}, log2: &gx.Log{}} },
+		Body: func(s interface{}) {
+			st := s.(*selHistState)
+			rb := gx.DeepClone(template).(*builder.RuleBuilder)
+			g := engine.NewGengine()
+			rb.Dc.Add("ev", st.log1.Ev)
+			rb.Dc.Add("boom", st.log1.Boom)
+			st.err1, st.pan = gx.CallGuarded(func() error {
+				return m1.Call(g, rb, gx.Params{B: cfg.B1, N: n1, M: k1, Names: cfg.Names1, Stag: &engine.Stag{}})
+			})
+			if st.pan != nil {
+				return
+			}
+			rb.Dc.Add("ev", st.log2.Ev)
+			rb.Dc.Add("boom", st.log2.Boom)
+			st.err2, st.pan = gx.CallGuarded(func() error {
+				return m2.Call(g, rb, gx.Params{B: true, N: n2, M: k2, Names: cfg.Names2, Stag: &engine.Stag{}})
+			})
+		},
+		Check: func(s interface{}, ex *vsched.Exec) (fs []hx.Finding) {
+			st := s.(*selHistState)
+			raw, _ := json.Marshal(cfg)
+			desc := fmt.Sprintf("\n  cfg=%s\n  first call: log=[%s] err=%v\n  second call: log=[%s] err=%v", raw, st.log1, st.err1, st.log2, st.err2)
+			if ex.Verdict != "" || st.pan != nil {
+				return []hx.Finding{{Sig: "c12:pair:" + cfg.M2 + ":did-not-complete", Msg: fmt.Sprintf("verdict %q panic %v", ex.Verdict, st.pan) + desc}}
+			}
+			if c := ref.Judge(plans1, toRefLog(st.log1), st.err1 != nil); c != "" {
+				fs = append(fs, hx.Finding{Sig: "c12:pair:" + cfg.M1 + ":first:" + sigOf(c), Msg: "first call: " + c + desc})
+			}
+			if c := ref.Judge(plans2, toRefLog(st.log2), st.err2 != nil); c != "" {
+				fs = append(fs, hx.Finding{Sig: "c12:pair:" + cfg.M2 + ":second:" + sigOf(c), Msg: "second selected call on the same engine does not run exactly its own named rules: " + c + desc})
+			}
+			return
+		},
+	}
+}
+
+func selPairConfigs() []selPairCfg {
+	var out []selPairCfg
+	for _, a := range selectedModels {
+		for _, names1 := range [][]string{{"r0", "r1", "r2"}, {"r2", "r1", "r0"}, {"r1", "r2"}} {
+			bs := []bool{true}
+			if a.policy {
+				bs = []bool{true, false}
+			}
+			for _, b1 := range bs {
+				for _, b := range selectedModels {
+					for _, names2 := range [][]string{{"r3"}, {"zz"}, {"r3", "r0"}} {
+						if b.nm && len(names2) < 2 {
+							continue
+						}
+						out = append(out, selPairCfg{M1: a.name, B1: b1, Names1: names1, M2: b.name, Names2: names2})
+					}
 				}
 			}
 		}
